@@ -85,3 +85,12 @@ Theorem C11_acquisition_table_closed : forall prog A, acq_closed prog A = true -
   RaceCfg.cmem c (nth (N.to_nat g) A []) = true.
 Proof. exact acq_closed_sound. Qed.
 Print Assumptions C11_acquisition_table_closed.
+
+(* ... in terms of goroutines: if g1 .. gk each hold a mutex of class h_i while blocked acquiring one of class w_i (a
+   nested acquisition, so an edge), and the mutex g_i waits for is held by g_(i+1), the last one's by g1 -- such a circle
+   of at most ncl + 1 goroutines cannot exist when the generated obligation C11_gen_lock_order holds *)
+Theorem C11_no_wait_circle : forall ncl edges, order_ok ncl edges = true ->
+  forall (waits : list (N * N)) a, waits <> [] -> (length waits <= S ncl)%nat ->
+  (forall e, In e waits -> In e (strict_edges edges)) -> chained a waits = Some a -> False.
+Proof. exact no_wait_circle. Qed.
+Print Assumptions C11_no_wait_circle.
